@@ -672,9 +672,23 @@ def c17(tier):
     depth = 22 if tier == "quick" else 40
     for n in (1, 2, 3):
         cat = catalogue(n, positive=True)
-        run.submit(p2_job, "sf-pos-n%d" % n, {"cfgs": cat, "inputs": [1, 2, 3], "unit": 1, "slots": 3, "depth": depth}, "C17", num=num)
+        run.submit(p2_job, "sf-pos-n%d" % n, {"cfgs": cat, "inputs": [1, 2, 3], "unit": 1, "slots": 3, "depth": depth}, "C17", num=num, twice=True)
         cat2 = [c for c in catalogue(n) if c["k"] != "Divide"]
-        run.submit(p2_job, "sf-neg-n%d" % n, {"cfgs": cat2, "inputs": [-3, 0, 1], "unit": 2, "slots": 3, "depth": depth}, "C17", num=num)
+        run.submit(p2_job, "sf-neg-n%d" % n, {"cfgs": cat2, "inputs": [-3, 0, 1], "unit": 2, "slots": 3, "depth": depth}, "C17", num=num, twice=True)
+    # the same kind with different parameters, and with neighbouring window lengths, side by side: nothing derived from one
+    # instance's parameters (a coefficient table, a kernel) may reach another instance; every program is also executed a second
+    # time in another process, thread and order (twice)
+    par = []
+    for n in (2, 3):
+        par += [{"k": "Alma", "n": n}, {"k": "Alma", "n": n, "sigma": [3, 1], "offset": [1, 2]}, ema(n), {"k": "Ema", "n": n, "alpha": [1, 1]},
+                {"k": "RoofingFilter", "n": n, "m": 2}, {"k": "RoofingFilter", "n": n, "m": 3}, {"k": "SuperSmoother", "n": n},
+                {"k": "LaguerreRSI", "n": n}, {"k": "CyberCycle", "n": n}, {"k": "TrendFlex", "n": n + 1}, {"k": "ReFlex", "n": n + 1},
+                {"k": "EhlersFisherTransform", "n": n, "c": [E, ema(2)]}, {"k": "EhlersFisherTransform", "n": n, "c": [E, ema(3)]},
+                {"k": "PolarizedFractalEfficiency", "n": n + 1, "c": [E, ema(2)]}, {"k": "PolarizedFractalEfficiency", "n": n + 1, "c": [E, sma(2)]},
+                {"k": "CorrelationTrendIndicator", "n": n + 1}, {"k": "CenterOfGravity", "n": n}]
+    par += [{"k": "LaguerreFilter", "g": g} for g in ([1, 2], [3, 4])] + [{"k": "GTE", "v": v} for v in ([1, 2], [5, 2])] + \
+           [{"k": "LTE", "v": v} for v in ([1, 2], [5, 2])] + [{"k": "Constant", "v": v} for v in ([3, 2], [-1, 4])]
+    run.submit(p2_job, "sf-params", {"cfgs": par, "inputs": [1, 2, 4], "unit": 1, "slots": 3, "depth": depth}, "C17", num=2 * num, twice=True)
     ch = chains2(catalogue(2, positive=True), sma(2)) + chains2(catalogue(3, positive=True), {"k": "Roc", "n": 1}) + chains2(catalogue(2, positive=True), {"k": "LaguerreRSI", "n": 2})
     run.submit(p2_job, "sf-chains", {"cfgs": ch, "inputs": [1, 2, 4], "unit": 1, "slots": 3, "depth": depth}, "C17", num=2 * num)
     # twins and clones of one configuration, every polling pattern and clone position (SFTwin.tla), all views
@@ -1049,6 +1063,28 @@ def replay(path):
         # one recorded program: replay it on the current tree and let Trace_SF judge it again
         run = Run("replay", "quick", "model_checking"); run.prop = obj["property"]; run.known = []
         inp = os.path.join(wd, "prog.in.ndjson"); outp = os.path.join(wd, "prog.out.ndjson")
+        if obj.get("twice"):
+            # the whole recorded set, executed twice as in the check (own thread / generation order, shared thread / reverse order)
+            lines = [json.dumps({"id": i + 1, "unit": obj.get("unit", 1), "slots": obj["slots"], "float": obj.get("float", "f64"), "prog": pr})
+                     for i, pr in enumerate(obj["all_progs"])]
+            open(inp, "w").write("\n".join(lines) + "\n"); open(inp + ".rev", "w").write("\n".join(reversed(lines)) + "\n")
+            sfv.harness("run", inp, outp + ".1", obj.get("profile", "dev"), env={"SFV_ISOLATE": "1"})
+            sfv.harness("run", inp + ".rev", outp + ".2", obj.get("profile", "dev"), env={"SFV_ISOLATE": "0"})
+            second = {}
+            for ln in open(outp + ".2"):
+                e = json.loads(ln); second[e["id"]] = e["res"]
+            with open(outp, "w") as f:
+                for ln in open(outp + ".1"):
+                    e = json.loads(ln); e["res2"] = second[e["id"]]; f.write(json.dumps(e) + "\n")
+                    if e["id"] == obj["index"]:
+                        for op, r1, r2 in zip(e["prog"], e["res"], e["res2"]):
+                            if r1 != r2:
+                                log("   %-40s -> %s | second execution %s" % (json.dumps(op)[:40], sfv.obs_to_float(r1) if isinstance(r1, list) else r1,
+                                                                               sfv.obs_to_float(r2) if isinstance(r2, list) else r2))
+            res = sfv.run_tlc("Trace_SF", "Trace.cfg", {"TRACE": outp, "PROP": obj.get("prop", obj["property"])}, wd, workers=1, timeout=1200, dfs=True)
+            if res["viol"]:
+                log("VIOLATION property=%s replay=%s" % (obj["property"], path)); return 1
+            log("replay: the recorded violation does not reproduce on the current tree"); return 0
         json.dump({"id": 1, "unit": obj.get("unit", 1), "slots": obj["slots"], "prog": obj["prog"]}, open(inp, "w"))
         sfv.harness("run", inp, outp, obj.get("profile", "dev"))
         r = json.loads(open(outp).readline())
